@@ -127,6 +127,15 @@ func (fs *fsMutable) deleteNSEntry(p fuseops.InodeID, c string) error {
 		pNode.attr.Nlink--
 	}
 
+	// the node is no longer linked in the name space: it may be released once the kernel forgets it
+	cNode.lock.Lock()
+	if cNode.attr.Mode.IsDir() {
+		cNode.attr.Nlink = 0
+	} else if cNode.attr.Nlink > 0 {
+		cNode.attr.Nlink--
+	}
+	cNode.lock.Unlock()
+
 	fs.lookupTree, _, _ = fs.lookupTree.Delete(lk)
 	children := fs.readDirMap[p]
 	// Delete from parent read dir
@@ -735,17 +744,9 @@ func getPathToBackingFile(iNode fuseops.InodeID) string {
 }
 
 func shouldDelete(n *nodeEntry) bool {
-	// LookupCount should be zero.
-	if n.attr.Mode.IsDir() {
-		if n.refCount == 0 {
-			return true
-		}
-	} else {
-		if n.refCount == 0 && n.attr.Nlink == 0 {
-			return true
-		}
-	}
-	return false
+	// LookupCount should be zero, and the node no longer linked in the name space: the kernel may forget
+	// a file or a directory that still exists, and look it up again later on.
+	return n.refCount == 0 && n.attr.Nlink == 0
 }
 
 type commitChans struct {
